@@ -9,7 +9,7 @@ def rows(rnd):
     out=[]
     for d in sorted(x for x in glob.glob('/verif/seeded/*') if os.path.isdir(x)):
         k=os.path.basename(d)
-        mm=re.search(r'-r(\d)-',k)
+        mm=re.search(r'-r(\d+)-',k)
         if (int(mm.group(1)) if mm else 1)!=rnd: continue
         m=json.load(open(d+'/meta.json'))
         clause=''
@@ -22,6 +22,7 @@ def rows(rnd):
         out.append('| %s | %s | %s%s |'%(k,m['property'],clause,extra))
     return out
 r1,r2,r3,r4,r5,r6,r7,r8,r9=[rows(i) for i in range(1,10)]
+r11=rows(11); n11,m11=nm(r11) if False else (len(r11),sum('missed at first' in x for x in r11))
 def nm(r): return len(r),sum('missed at first' in x for x in r)
 (n1,m1),(n2,m2),(n3,m3),(n4,m4),(n5,m5),(n6,m6),(n7,m7),(n8,m8),(n9,m9)=[nm(r) for r in (r1,r2,r3,r4,r5,r6,r7,r8,r9)]
 own=open('/verif/mutants/RESULTS.txt').read().strip().split('\n')
@@ -149,6 +150,19 @@ property each change breaks): %d detected as the checks stood, %d missed.
 | seed | property | detected by (scenario / clause) |
 |---|---|---|
 '''%(n9,n9-m9,m9)+'\n'.join(r9)+'''
+
+(Round 10 produced no seeds: it was the false-alarm probe of section 8.4.)
+
+**Round 11** (%d changes; each author listed the clauses of its property, picked the one it judged
+least likely to be exercised — a side condition, a quantifier corner, a parenthesised exception,
+the last half-sentence — and broke exactly that; four of the changes are rewrites of the
+sequencer's synchronisation that are wrong only when calls overlap: RWMutex, double-checked
+locking, atomic value with a separately locked rollover count, unlock before the last read):
+%d detected as the checks stood, %d missed at first.
+
+| seed | property | detected by (scenario / clause) |
+|---|---|---|
+'''%(n11,n11-m11,m11)+'\n'.join(r11)+'''
 
 What changed in response, as a rule rather than case by case: every property whose code handles a
 length, a count or an index now has a *scale* scenario next to its small-scope product, in which
